@@ -22,6 +22,16 @@ Record st := mkSt {
 
 Definition native : Z := 0.
 
+(* Shapes of five guards, read from the source tree on every run by gen_mintburn (Gen/MintBurn.v
+   tree_config); [false] is the code as first found, [true] the repaired shape. *)
+Record config := mkConfig {
+  cf_cap_strict : bool;          (* tokens msg server: msg.SupplyCap.IsZero()  |  !msg.SupplyCap.IsPositive() *)
+  cf_ubi_exact : bool;           (* ubi proposal handler: uint64 sum  |  sdk.Int sum, zero period refused *)
+  cf_ubi_amount_exact : bool;    (* ProcessUBIRecord: sdk.NewInt(int64(Amount))  |  sdk.NewIntFromUint64(Amount) *)
+  cf_ubi_due_exact : bool;       (* ubi EndBlocker: now > last+period (wraps)  |  now > last && now-last > period *)
+  cf_mint_native_refused : bool  (* layer2 MintIssueTx: any registered denom  |  the bond denom is refused *)
+}.
+
 (* ---------------------------------------------------------------- association lists *)
 Fixpoint aget {A} (k : Z) (l : list (Z * A)) : option A :=
   match l with [] => None | (k', v) :: r => if k' =? k then Some v else aget k r end.
@@ -161,15 +171,30 @@ Fixpoint ubi_sum (us : list ubi) (acc : Z) : outcome Z :=
   | u :: r => do t <- ubi_term (u_amount u) (u_period u); ubi_sum r (wrap64 (acc + t))
   end.
 
+(* the same sum in sdk.Int (repaired shape): no wrap; Int.Quo by a zero stored period still panics *)
+Fixpoint ubi_sum_exact (us : list ubi) (acc : Z) : outcome Z :=
+  match us with
+  | [] => Ok acc
+  | u :: r => if u_period u =? 0 then Panic "division by zero"
+              else ubi_sum_exact r (acc + u_amount u * year_seconds / u_period u)
+  end.
+
 (* proposal_handler.go ApplyUpsertUBIProposalHandler.Apply *)
-Definition ubi_upsert (s : st) (name amount period start end_ pool : Z) : outcome st :=
+Definition ubi_upsert (cf : config) (s : st) (name amount period start end_ pool : Z) : outcome st :=
   match aget pool (s_pools s) with
   | None => Err "spending pool does not exist"
   | Some _ =>
-      do sum <- ubi_sum (s_ubis s) 0;
-      do t <- ubi_term amount period;
-      if p_hardcap (s_params s) <? wrap64 (sum + t) then Err "ubi sum overflows hardcap"
-      else Ok (set_ubis s (ubi_insert (mkUbi name amount period start end_ false pool) (s_ubis s)))
+      let accept := Ok (set_ubis s (ubi_insert (mkUbi name amount period start end_ false pool) (s_ubis s))) in
+      if cf_ubi_exact cf then
+        if period =? 0 then Err "ubi sum overflows hardcap" else
+        do sum <- ubi_sum_exact (s_ubis s) 0;
+        if p_hardcap (s_params s) <? sum + amount * year_seconds / period then Err "ubi sum overflows hardcap"
+        else accept
+      else
+        do sum <- ubi_sum (s_ubis s) 0;
+        do t <- ubi_term amount period;
+        if p_hardcap (s_params s) <? wrap64 (sum + t) then Err "ubi sum overflows hardcap"
+        else accept
   end.
 
 Definition ubi_delete (s : st) (name : Z) : outcome st :=
@@ -179,17 +204,19 @@ Definition ubi_delete (s : st) (name : Z) : outcome st :=
   end.
 
 (* abci.go EndBlocker condition *)
-Definition ubi_due (now : Z) (u : ubi) : bool :=
-  (wrap64 (u_last u + u_period u) <? now) && ((u_end u =? 0) || (u_last u <? u_end u)).
+Definition ubi_due (cf : config) (now : Z) (u : ubi) : bool :=
+  (if cf_ubi_due_exact cf then (u_last u <? now) && (u_period u <? now - u_last u)
+   else wrap64 (u_last u + u_period u) <? now)
+  && ((u_end u =? 0) || (u_last u <? u_end u)).
 
 Definition with_last (u : ubi) (t : Z) : ubi := mkUbi (u_name u) (u_amount u) (u_period u) t (u_end u) (u_dynamic u) (u_pool u).
 
 (* keeper/ubi.go ProcessUBIRecord, run on a cache that is written only when it returns nil *)
-Definition process_ubi (s : st) (u : ubi) : outcome st :=
+Definition process_ubi (cf : config) (s : st) (u : ubi) : outcome st :=
   do ip <- inflation_possible (s_ysnap s) (p_maxann (s_params s)) (nat_supply s) (s_now s);
   if negb ip then Ok s else
   let s1 := set_ubis s (ubi_insert (with_last u (s_now s)) (s_ubis s)) in
-  let amount := as_int64 (u_amount u) * 1000000 in
+  let amount := (if cf_ubi_amount_exact cf then u_amount u else as_int64 (u_amount u)) * 1000000 in
   do todo <- (if u_dynamic u then
                 match aget (u_pool u) (s_pools s) with
                 | None => Err "spending pool does not exist"
@@ -208,32 +235,29 @@ Definition process_ubi (s : st) (u : ubi) : outcome st :=
            end
   end.
 
-Fixpoint ubi_end (us : list ubi) (s : st) : outcome st :=
+Fixpoint ubi_end (cf : config) (us : list ubi) (s : st) : outcome st :=
   match us with
   | [] => Ok s
   | u :: r =>
-      if ubi_due (s_now s) u then
-        match process_ubi s u with
-        | Ok s' => ubi_end r s'
-        | Err _ => ubi_end r s
+      if ubi_due cf (s_now s) u then
+        match process_ubi cf s u with
+        | Ok s' => ubi_end cf r s'
+        | Err _ => ubi_end cf r s
         | Panic e => Panic e
         end
-      else ubi_end r s
+      else ubi_end cf r s
   end.
 
 (* one block: distributor BeginBlocker (allocation from height 2 on), ubi EndBlocker, distributor
    EndBlocker.  Returns the states after each of the three. *)
-Definition block_parts (s : st) (dt : Z) : outcome (st * st * st) :=
+Definition block_parts (cf : config) (s : st) (dt : Z) : outcome (st * st * st) :=
   let s0 := set_time s (s_now s + dt) (s_height s + 1) in
   do s1 <- (if 1 <? s_height s0 then allocate s0 else Ok s0);
-  do s2 <- ubi_end (s_ubis s1) s1;
+  do s2 <- ubi_end cf (s_ubis s1) s1;
   Ok (s1, s2, distr_end s2).
 
 (* ---------------------------------------------------------------- x/tokens msg server / proposal *)
-(* [strict]: how the msg server guards the new cap of an existing capped token.  false: the code as
-   found (`msg.SupplyCap.IsZero()`: only zero is refused); true: `!msg.SupplyCap.IsPositive()`.
-   Which one the tree has is read from the source by gen_mintburn (Gen/MintBurn.v cap_guard_strict). *)
-Definition upsert_msg (strict : bool) (s : st) (actor : Z) (perm : bool) (d supply cap owner : Z) (noedit : bool) (fee stakecap : Z) : outcome st :=
+Definition upsert_msg (cf : config) (s : st) (actor : Z) (perm : bool) (d supply cap owner : Z) (noedit : bool) (fee stakecap : Z) : outcome st :=
   if d =? native then Err "bond denom rate is read-only" else
   if fee <=? 0 then Err "rate should be positive" else
   if stakecap <? 0 then Err "reward cap should be positive" else
@@ -241,7 +265,7 @@ Definition upsert_msg (strict : bool) (s : st) (actor : Z) (perm : bool) (d supp
   match aget d (s_reg s) with
   | Some t =>
       if negb (t_owner t =? actor) || t_noedit t then Err "not enough permissions" else
-      if negb (t_cap t =? 0) && ((t_cap t <? cap) || (if strict then cap <=? 0 else cap =? 0)) then Err "supply cap should not be increased" else
+      if negb (t_cap t =? 0) && ((t_cap t <? cap) || (if cf_cap_strict cf then cap <=? 0 else cap =? 0)) then Err "supply cap should not be increased" else
       do reg' <- reg_upsert (s_reg s) d (mkTok (t_supply t) cap owner noedit (t_fee t) (t_stakecap t));
       Ok (set_reg s reg')
   | None =>
@@ -265,7 +289,8 @@ Definition credit (s : st) (acct d amt : Z) : st :=
   if acct =? 0 then s else set_bals s (zadd (bkey acct d) amt (s_bals s)).
 
 (* ---------------------------------------------------------------- x/layer2 MintIssueTx / MintBurnTx *)
-Definition mint_issue (s : st) (actor d amt : Z) : outcome st :=
+Definition mint_issue (cf : config) (s : st) (actor d amt : Z) : outcome st :=
+  if cf_mint_native_refused cf && (d =? native) then Err "bond denom cannot be minted by a message" else
   match aget d (s_reg s) with
   | None => Panic "nil pointer dereference"
   | Some t =>
@@ -303,24 +328,24 @@ Inductive op : Type :=
 | OBurn (actor d amt : Z)
 | OFee (actor amt : Z).
 
-Definition step (strict : bool) (s : st) (o : op) : outcome st :=
+Definition step (cf : config) (s : st) (o : op) : outcome st :=
   match o with
-  | OBlock dt => do r <- block_parts s dt; Ok (snd r)
+  | OBlock dt => do r <- block_parts cf s dt; Ok (snd r)
   | OParams rate period maxann => Ok (set_params s (mkParams rate period maxann (p_hardcap (s_params s))))
   | OHardcap v => let p := s_params s in Ok (set_params s (mkParams (p_rate p) (p_period p) (p_maxann p) v))
-  | OUbiUpsert name amount period start end_ pool => ubi_upsert s name amount period start end_ pool
+  | OUbiUpsert name amount period start end_ pool => ubi_upsert cf s name amount period start end_ pool
   | OUbiRemove name => ubi_delete s name
-  | OUpsertMsg actor perm d supply cap owner noedit fee stakecap => upsert_msg strict s actor perm d supply cap owner noedit fee stakecap
+  | OUpsertMsg actor perm d supply cap owner noedit fee stakecap => upsert_msg cf s actor perm d supply cap owner noedit fee stakecap
   | OPropUpsert d supply cap owner noedit fee stakecap => prop_upsert s d supply cap owner noedit fee stakecap
-  | OMintIssue actor d amt => mint_issue s actor d amt
+  | OMintIssue actor d amt => mint_issue cf s actor d amt
   | OBurn actor d amt => mint_burn s actor d amt
   | OFee actor amt => debit s actor native amt
   end.
 
 (* a rejected or panicking operation leaves the state unchanged (transaction / proposal cache;
    a panicking block is discarded by the harness) *)
-Definition step_total (strict : bool) (s : st) (o : op) : st := match step strict s o with Ok s' => s' | _ => s end.
-Definition run (strict : bool) (s : st) (ops : list op) : st := fold_left (step_total strict) ops s.
+Definition step_total (cf : config) (s : st) (o : op) : st := match step cf s o with Ok s' => s' | _ => s end.
+Definition run (cf : config) (s : st) (ops : list op) : st := fold_left (step_total cf) ops s.
 
 (* ---------------------------------------------------------------- mint / burn call sites
    (the table itself is regenerated from the source tree: Gen/MintBurn.v) *)
